@@ -81,7 +81,7 @@ func errEnum(e value.Value) string {
 }
 
 // intArg parses `<kind>:<decimal>` into an Elk integer value of that kind.
-func intArg(s string) (value.Value, bool) {
+func strIntArg(s string) (value.Value, bool) {
 	k, d, ok := strings.Cut(s, ":")
 	if !ok {
 		return value.Undefined, false
@@ -246,7 +246,7 @@ func execStr(f []string) string {
 		if len(f) < 3 {
 			return "bad-op"
 		}
-		idx, ok := intArg(f[2])
+		idx, ok := strIntArg(f[2])
 		if !ok {
 			return "bad-op"
 		}
@@ -271,7 +271,7 @@ func execStr(f []string) string {
 		if len(f) != 4 {
 			return "bad-op"
 		}
-		n, ok1 := intArg("int:" + f[2])
+		n, ok1 := strIntArg("int:" + f[2])
 		c, err := strconv.ParseInt(f[3], 10, 32)
 		if !ok1 || err != nil {
 			return "bad-op"
@@ -302,7 +302,7 @@ func execStr(f []string) string {
 		if len(f) != 3 {
 			return "bad-op"
 		}
-		n, ok := intArg("int:" + f[2])
+		n, ok := strIntArg("int:" + f[2])
 		if !ok {
 			return "bad-op"
 		}
